@@ -227,3 +227,209 @@ def c14_sites(repo_root, tier):
             "assumptions": ["histories are covered by the data-structure invariant (capacity, LRU order) and the per-call contracts, not enumerated",
                             "the uncached loader returns a fresh template bound to the caller's globals (Environment.from_string contract)"],
             "functions": []}
+
+
+# --------------------------------------------------------------------------- C07
+def _with_context_exprs(fn):
+    out = set()
+    for n in own_nodes(fn):
+        if isinstance(n, (ast.With, ast.AsyncWith)):
+            for it in n.items:
+                out.add(id(it.context_expr))
+    return out
+
+
+@register("C07")
+def c07_sites(repo_root, tier):
+    repo = Repo(repo_root)
+    obs = []
+    fresh = compute_fresh_funcs(repo)
+    # (1) the scope stack is pushed/popped only by RenderContext.extend
+    bad = []
+    for m, qual, cls, fn, parent in _all_functions(repo):
+        for c in _calls(fn):
+            f = c.func
+            if isinstance(f, ast.Attribute) and f.attr in ("push", "pop", "appendleft", "popleft") and ast.unparse(f.value).endswith(".scope") and "context" in ast.unparse(f.value) or \
+               (isinstance(f, ast.Attribute) and f.attr in ("push", "pop") and ast.unparse(f.value) == "self.scope"):
+                if not (m.name == "liquid2.context" and qual == "RenderContext.extend"):
+                    bad.append(f"{m.name}:{qual}@{c.lineno}")
+    _ob(obs, "liquid2/site.scope-push-pop-only-in-extend", not bad, "RenderContext.scope is pushed/popped only inside RenderContext.extend (which restores it in `finally`)" if not bad else f"scope pushed/popped at {bad[:4]}")
+    # (2) every use of extend()/loop() is the context expression of a `with`; its namespace is a fresh mapping
+    n_sites = 0
+    for m, qual, cls, fn, parent in _all_functions(repo):
+        withs = _with_context_exprs(fn)
+        p = None
+        for c in _calls(fn):
+            f = c.func
+            if not (isinstance(f, ast.Attribute) and f.attr in ("extend", "loop")):
+                continue
+            recv = ast.unparse(f.value)
+            if not (recv.endswith("context") or recv == "self" and m.name == "liquid2.context"):
+                continue
+            if recv == "self" and f.attr == "extend" and qual != "RenderContext.loop":
+                continue
+            n_sites += 1
+            oid = f"{m.name}:{qual}/site.scoped-with@{_ordinal(fn, c)}"
+            in_with = id(c) in withs
+            p = p or Prov(repo, m, fn, cls, fresh)
+            ns = c.args[0] if c.args else next((k.value for k in c.keywords if k.arg == "namespace"), None)
+            tags = p.of_expr(ns) if ns is not None else set()
+            # a namespace handed in as a parameter is its caller's obligation; what must never be pushed is
+            # something rooted at the context itself (its locals/globals/counters) or at the node
+            fresh_ns = bool(tags) and all(t == "fresh" or (isinstance(t, tuple) and t[0] == "param" and t[1] not in ("context", "self", "ctx")) for t in tags)
+            # `namespace` parameters: RenderContext.loop forwards its own parameter
+            _ob(obs, oid, in_with and fresh_ns,
+                f"{recv}.{f.attr}({ast.unparse(ns) if ns is not None else ''}) is a `with` item and binds a fresh namespace" if in_with and fresh_ns else
+                f"{recv}.{f.attr}(...) at line {c.lineno}: with-item={in_with}, namespace provenance={sorted(map(str, tags))}")
+    _ob(obs, "liquid2/site.scoped-with.count", n_sites >= 15, f"{n_sites} block-scope sites found")
+    # (3) isolated partials: render and call build their context with copy() (never extend), pass disabled tags
+    for modname, clsname, attr in (("liquid2.builtin.tags.render_tag", "RenderNode", "disabled"), ("liquid2.builtin.tags.macro_tag", "CallNode", "disabled_tags")):
+        m = repo.module(modname)
+        c = m.classes.get(clsname) if m else None
+        val = None
+        if c is not None:
+            for st in c.body:
+                if isinstance(st, ast.Assign) and any(isinstance(t, ast.Name) and t.id == attr for t in st.targets):
+                    val = st.value
+        names = set()
+        if val is not None:
+            for n in ast.walk(val):
+                if isinstance(n, ast.Constant) and isinstance(n.value, str):
+                    names.add(n.value)
+        _ob(obs, f"{modname}:{clsname}.{attr}/site.include-disabled", "include" in names, f"{clsname}.{attr} = {sorted(names)} contains 'include'")
+        for meth in ("render_to_output", "render_to_output_async"):
+            fn = m.find(f"{clsname}.{meth}") if m else None
+            ok = False
+            note = "not found"
+            if fn is not None:
+                copies = [cc for cc in _calls(fn) if isinstance(cc.func, ast.Attribute) and cc.func.attr == "copy" and ast.unparse(cc.func.value) == "context"]
+                extends = [cc for cc in _calls(fn) if isinstance(cc.func, ast.Attribute) and cc.func.attr in ("extend", "loop") and ast.unparse(cc.func.value) == "context"]
+                ok = len(copies) == 1 and not extends
+                if ok:
+                    kw = {k.arg: ast.unparse(k.value) for k in copies[0].keywords}
+                    ok = kw.get("disabled_tags") == f"self.{attr}" and kw.get("block_scope", "False") == "False"
+                    # the partial / macro body is rendered with the copy, never with the caller's context
+                    var = None
+                    for n in own_nodes(fn):
+                        if isinstance(n, ast.Assign) and n.value is copies[0] and isinstance(n.targets[0], ast.Name):
+                            var = n.targets[0].id
+                    renders = [cc for cc in _calls(fn) if isinstance(cc.func, ast.Attribute) and cc.func.attr in ("render_with_context", "render_with_context_async", "render", "render_async")
+                               and cc.args and isinstance(cc.args[0], ast.Name)]
+                    ok = ok and var is not None and bool(renders) and all(r.args[0].id == var for r in renders)
+                    note = f"{clsname}.{meth}: body rendered with `{var}` = context.copy(disabled_tags=self.{attr}); {len(renders)} render sites"
+                else:
+                    note = f"{clsname}.{meth}: {len(copies)} copy() calls, {len(extends)} extend()/loop() calls on the caller's context"
+            _ob(obs, f"{modname}:{clsname}.{meth}/site.isolated-copy", ok, note)
+    # (4) LambdaExpression.map extends the scope inside a generator: restoration at generator close
+    em = repo.module("liquid2.builtin.expressions")
+    fn = em.find("LambdaExpression.map") if em else None
+    ok = False
+    if fn is not None:
+        withs = [n for n in own_nodes(fn) if isinstance(n, ast.With)]
+        ok = bool(withs) and all(any(isinstance(x, ast.Yield) for x in ast.walk(w)) for w in withs) and all(
+            isinstance(w.items[0].context_expr, ast.Call) and ast.unparse(w.items[0].context_expr.func) == "context.extend" for w in withs)
+    _ob(obs, "liquid2.builtin.expressions:LambdaExpression.map/site.generator-scope", ok,
+        "each yield of map() sits inside `with context.extend(scope)`: the scope is popped when the generator is resumed or closed")
+    return {"obligations": obs, "samples": [{"obligation": o["oid"], "backend": "site", "note": o["note"]} for o in obs[:2]],
+            "trusted": [], "functions": [],
+            "assumptions": ["CPython reference counting closes an abandoned generator (LambdaExpression.map) before its caller resumes",
+                            "non-interference of arbitrary program pairs is the composition of the per-function facts, argued in DESIGN.md, not machine-checked"]}
+
+
+# --------------------------------------------------------------------------- C16
+STRICT_RAISE = "raise UndefinedError(self.msg, token=self.token)"
+
+
+def _body_wo_doc(fn):
+    return [s for s in fn.body if not (isinstance(s, ast.Expr) and isinstance(s.value, ast.Constant))]
+
+
+@register("C16")
+def c16_sites(repo_root, tier):
+    repo = Repo(repo_root)
+    obs = []
+    um = repo.module("liquid2.undefined")
+    und = um.classes.get("Undefined") if um else None
+    strict = um.classes.get("StrictUndefined") if um else None
+    falsy = um.classes.get("FalsyStrictUndefined") if um else None
+    if not (und and strict and falsy):
+        _ob(obs, "liquid2.undefined/site.classes", False, "Undefined / StrictUndefined / FalsyStrictUndefined not found")
+        return {"obligations": obs}
+    umeths = {st.name: st for st in und.body if isinstance(st, ast.FunctionDef)}
+    smeths = {st.name: st for st in strict.body if isinstance(st, ast.FunctionDef)}
+    # (1) every protocol method of Undefined that the engine can reach from a template is overridden
+    #     in StrictUndefined by a body that only raises UndefinedError
+    exempt = {"__init__", "__repr__"}
+    # __liquid__ and poke are not overridden: __getattribute__ refuses them (obligation 2)
+    via_getattribute = {"__liquid__", "poke"}
+    for name in sorted(umeths):
+        if name in exempt:
+            continue
+        oid = f"liquid2.undefined:StrictUndefined.{name}/site.strict-raises"
+        if name in via_getattribute:
+            allowed = _frozenset_literal(strict, "allowed_properties")
+            ok = allowed is not None and name not in allowed and "__getattribute__" in smeths
+            _ob(obs, oid, ok, f"`{name}` is not in StrictUndefined.allowed_properties: any access raises through __getattribute__")
+            continue
+        fn = smeths.get(name)
+        ok = fn is not None and [ast.unparse(s) for s in _body_wo_doc(fn)] == [STRICT_RAISE]
+        _ob(obs, oid, ok, f"StrictUndefined.{name} only raises UndefinedError" if ok else f"StrictUndefined.{name} missing or does something else")
+    # StrictUndefined also refuses truthiness (Undefined has no __bool__: falls back to __len__ == 0)
+    fn = smeths.get("__bool__")
+    _ob(obs, "liquid2.undefined:StrictUndefined.__bool__/site.strict-raises", fn is not None and [ast.unparse(s) for s in _body_wo_doc(fn)] == [STRICT_RAISE], "StrictUndefined.__bool__ only raises UndefinedError")
+    # (2) __getattribute__: a name outside allowed_properties raises UndefinedError
+    ga = smeths.get("__getattribute__")
+    want = ["if name in object.__getattribute__(self, 'allowed_properties'):\n    return object.__getattribute__(self, name)",
+            "raise UndefinedError(object.__getattribute__(self, 'msg'), token=self.token)"]
+    _ob(obs, "liquid2.undefined:StrictUndefined.__getattribute__/site.allow-list", ga is not None and [ast.unparse(s) for s in _body_wo_doc(ga)] == want,
+        "__getattribute__ returns allowed_properties members and raises UndefinedError for every other name")
+    for cls, cname, must_not in ((strict, "StrictUndefined", {"__str__", "__len__", "__iter__", "__getitem__", "__contains__", "__eq__", "__bool__", "__int__", "__hash__", "__liquid__", "poke", "__reversed__"}),
+                                 (falsy, "FalsyStrictUndefined", {"__str__", "__len__", "__iter__", "__getitem__", "__contains__", "__int__", "__hash__", "poke", "__reversed__"})):
+        allowed = _frozenset_literal(cls, "allowed_properties")
+        ok = allowed is not None and not (allowed & must_not)
+        _ob(obs, f"liquid2.undefined:{cname}.allowed_properties/site.allow-list", ok,
+            f"{cname}.allowed_properties exposes no value-producing protocol method" if ok else f"{cname}.allowed_properties = {sorted(allowed or [])} exposes {sorted((allowed or set()) & must_not)}")
+    # (3) default policy: no method of Undefined raises
+    for name, fn in sorted(umeths.items()):
+        raises = [n for n in ast.walk(fn) if isinstance(n, ast.Raise)]
+        _ob(obs, f"liquid2.undefined:Undefined.{name}/site.never-raises", not raises, f"Undefined.{name} contains no raise statement")
+    # (4) RenderContext.get / get_async / resolve build an undefined only in the failed-lookup handlers
+    cm = repo.module("liquid2.context")
+    for name in ("get", "get_async", "resolve"):
+        fn = cm.find(f"RenderContext.{name}") if cm else None
+        ok = False
+        note = "not found"
+        if fn is not None:
+            handlers = [h for n in own_nodes(fn) if isinstance(n, ast.Try) for h in n.handlers]
+            in_handler = set()
+            for h in handlers:
+                for x in ast.walk(h):
+                    in_handler.add(id(x))
+            calls = [c for c in _calls(fn) if ast.unparse(c.func) == "self.env.undefined"]
+            types_ok = all(h.type is not None and set(ast.unparse(h.type).strip("()").replace(" ", "").split(",")) <= {"KeyError", "TypeError", "IndexError"} for h in handlers)
+            rets = [r for r in own_nodes(fn) if isinstance(r, ast.Return) and r.value is not None and id(r) not in in_handler]
+            plain = all(ast.unparse(r.value) in ("obj", "self.scope[name]") for r in rets)
+            ok = bool(calls) and all(id(c) in in_handler for c in calls) and types_ok and plain
+            note = (f"{name}: {len(calls)} undefined(...) constructions, all inside except (KeyError|TypeError|IndexError) handlers; "
+                    f"the success path returns the looked-up object") if ok else f"{name}: undefined built outside a failed-lookup handler or success path returns something else"
+        _ob(obs, f"liquid2.context:RenderContext.{name}/site.undefined-only-on-failure", ok, note)
+    # (5) Environment uses the configured policy class and nothing else
+    em = repo.module("liquid2.environment")
+    src = em.source if em else ""
+    _ob(obs, "liquid2.environment:Environment/site.undefined-policy", "self.undefined = undefined" in src and "undefined: Type[Undefined] = Undefined" in src.replace("type[", "Type["),
+        "the policy class is the constructor argument `undefined` (default: Undefined)")
+    return {"obligations": obs, "samples": [{"obligation": o["oid"], "backend": "site", "note": o["note"]} for o in obs[:2]],
+            "trusted": [], "functions": [],
+            "assumptions": ["`strict success implies same output as default` over all programs is not claimed: only the per-method facts above"],
+            "not_covered": ["whole-program refinement (strict output == default output whenever strict succeeds)"]}
+
+
+def _frozenset_literal(cls, name):
+    for st in cls.body:
+        if isinstance(st, ast.Assign) and any(isinstance(t, ast.Name) and t.id == name for t in st.targets):
+            out = set()
+            for n in ast.walk(st.value):
+                if isinstance(n, ast.Constant) and isinstance(n.value, str):
+                    out.add(n.value)
+            return out
+    return None
